@@ -27,6 +27,7 @@ theorem demoSwitch_noHead : ∀ n, demoSwitch.g.isOneofHead n = false := by
 
 theorem demoSwitch_oneP : OneP demoSwitch := by
   refine oneP_of_check (by decide) (fun h hh => by rw [demoSwitch_noHead h] at hh; cases hh) ?_ (fun _ _ => ⟨rfl, rfl⟩)
+    (fun _ => rfl)
   intro n kw i k v h
   simp only [demoSwitch] at h
   split at h <;> (cases h; exact ⟨rfl, rfl⟩)
